@@ -25,9 +25,12 @@ OOB = ('oob',)           # memory outside the buffer (as_strided overrun)
 
 
 class Backing:
-    __slots__ = ('cells', 'owner', 'readonly', 'label')
+    __slots__ = ('cells', 'owner', 'readonly', 'label', 'serial')
+    counter = 0                     # allocation order: tells memory allocated during a call from memory that existed before it
 
     def __init__(self, cells, owner=None, label=None):
+        Backing.counter += 1
+        self.serial = Backing.counter
         self.cells = cells          # list[El]
         self.owner = owner          # None = fresh memory allocated by the analysed code; else the caller-owned input name
         self.label = label
@@ -68,6 +71,8 @@ class Vec:
         # a *lazy boolean selection* x[m] with an undecided mask m: the full-length elements are kept and `sel_mask` holds
         # the formulas; only element-wise use and `target[m] = x[m]` (same m) are meaningful
         self.sel_mask = None
+        # numpy's writeable flag of this array object (views of a read-only array are read-only, copies are writable)
+        self.ro = False
 
     # ---- construction ----
     @classmethod
@@ -82,6 +87,7 @@ class Vec:
 
     def view(self, idx, **kw):
         v = Vec(self.back, idx, self.kind, self.dtype, self.unit, self.index, self.tz)
+        v.ro = self.ro
         for k, val in kw.items():
             setattr(v, k, val)
         return v
